@@ -107,6 +107,9 @@ def betaBinary2(therm : BinaryThermodynamics, x, T, Rcrit, matrix : MatrixParame
         xEqAlpha, xEqBeta = therm.getInterfacialComposition(T[indices], np.zeros(T[indices].shape), precipitate.phase)
 
     beta = np.zeros(Rcrit.shape)
+    #Equilibrium compositions of 0 are the placeholder for when no two-phase equilibrium was found, there is no impingement then (avoids 0/0)
+    if np.all(np.asarray(xEqAlpha) == 0) and np.all(np.asarray(xEqBeta) == 0):
+        return np.squeeze(beta)
     D = np.atleast_2d(therm.getTracerDiffusivity(x[indices], T[indices], removeCache=removeCache))
     Dfactor = (xEqBeta - xEqAlpha)**2 / (xEqAlpha*D[:,1]) + (xEqBeta - xEqAlpha)**2 / ((1 - xEqAlpha)*D[:,0])
     beta[indices] = precipitate.nucleation.areaFactor * Rcrit[indices]**2 * (1/Dfactor) / matrix.volume.a**4
